@@ -492,6 +492,45 @@ pub fn run(sc: &Scenario, recvs: &'static BTreeMap<&'static str, RecvDesc>) -> J
         }
         world::take_log();
     }
+    // C14.R3 / C14.R4: nothing observable depends on hasher state, and hash and ordered maps with
+    // the same key and value types behave identically (faults are keyed by item, so both meet the
+    // same faults)
+    if sc.mode == "map" {
+        let primary = outcome.clone();
+        let mut variants = 0u32;
+        for mode in 0..4u8 {
+            for seed in [0u64, sc.env.hasher_seed ^ 0x9E37_79B9, u64::MAX] {
+                if mode == sc.env.hasher_mode && seed == sc.env.hasher_seed {
+                    continue;
+                }
+                world::reset_faults(&sc.env);
+                world::set_hasher(mode, seed);
+                if let Ok((o, _)) = execute(sc, &di) {
+                    variants += 1;
+                    if o != primary {
+                        j.failures.push(fail(
+                            "C14.R3",
+                            format!("outcome depends on hasher state: mode {} seed {} gives {}, mode {} seed {} gives {}", sc.env.hasher_mode, sc.env.hasher_seed, short(&primary), mode, seed, short(&o)),
+                        ));
+                    }
+                }
+            }
+        }
+        if let Some(twin) = crate::schema::btree_twin(&sc.receiver) {
+            world::reset_faults(&sc.env);
+            world::set_hasher(sc.env.hasher_mode, sc.env.hasher_seed);
+            let mut sc2 = sc.clone();
+            sc2.receiver = twin.to_string();
+            if let Ok((o, _)) = execute(&sc2, &di) {
+                variants += 1;
+                if o != primary {
+                    j.failures.push(fail("C14.R4", format!("hash map gives {}, ordered map with the same key and value types gives {}", short(&primary), short(&o))));
+                }
+            }
+        }
+        j.mistakes.push(format!("probe:hasher_and_twin_variants_compared_x{}", variants.min(12)));
+        world::take_log();
+    }
     j.outcome = outcome;
     j
 }
